@@ -1,7 +1,8 @@
 import AriVerif.Conc.DataProj
 /-
   Conc/DataFifo.lean — the whole-Data-server model of the co-simulation (`Conc/Data.lean`): the send queue is
-  FIFO without loss or duplication (written ++ held ++ queued is exactly the log of everything enqueued), the
+  FIFO without loss or duplication (written ++ held ++ queued is exactly the log of everything enqueued) — except that
+  a failing write loses exactly the one message the writer holds (`gstep_fifo_sendFail`, `greach_pending_lost`) —, the
   credentials message heads that log on every schedule, and every item's outbound sequence (`IState.out`,
   the subject of the per-item theorems C01 / C03 / C16 / C17) is embedded in it in order.
 -/
@@ -17,8 +18,8 @@ def genqs (e : List GEff) : List String :=
 /-- the message the writer has taken from the queue and not yet written. -/
 def gholding (s : DState) : List String := match s.wpc with | .send m => [m] | _ => []
 
-/-- what the writer has written, holds, or will take, in order. -/
-def gpending (s : DState) : List String := s.written ++ gholding s ++ s.sendQ
+/-- what the writer has written, holds, or will take, in order (the stop pill is not a message). -/
+def gpending (s : DState) : List String := s.written ++ gholding s ++ s.sendQ.filterMap id
 
 /-- reachability of the whole-server model, with the ghost log of every line any thread enqueued so far.
     One hypothesis on the environment: `listener.failure()` is called only once `start()` has enqueued the
@@ -47,7 +48,7 @@ theorem istep_out_enq (s s' : IState) (a : IAct) (e : List Eff) (h : istep s a =
 /-- the effect-lifting function folded by `liftItem`. -/
 def gliftF (x : String) (acc : DState × List GEff) (e : Eff) : DState × List GEff :=
   match e with
-  | .enqueue l => ({ acc.1 with sendQ := acc.1.sendQ ++ [l] }, acc.2 ++ [.enqueue l])
+  | .enqueue l => ({ acc.1 with sendQ := acc.1.sendQ ++ [some l] }, acc.2 ++ [.enqueue l])
   | .submit k =>
     let n := acc.1.tasks.length + 1
     ({ acc.1 with tasks := acc.1.tasks ++ [(x, k)], workQ := acc.1.workQ ++ [n] }, acc.2 ++ [.submit n])
@@ -65,7 +66,7 @@ theorem liftItem_eq (s : DState) (x : String) (a : IAct) :
 
 theorem foldl_gliftF (x : String) (effs : List Eff) (acc : DState × List GEff) :
     (effs.foldl (gliftF x) acc).1.items = acc.1.items ∧
-    (effs.foldl (gliftF x) acc).1.sendQ = acc.1.sendQ ++ ienqs effs ∧
+    (effs.foldl (gliftF x) acc).1.sendQ = acc.1.sendQ ++ (ienqs effs).map some ∧
     (effs.foldl (gliftF x) acc).1.written = acc.1.written ∧
     (effs.foldl (gliftF x) acc).1.wpc = acc.1.wpc ∧
     genqs (effs.foldl (gliftF x) acc).2 = genqs acc.2 ++ ienqs effs := by
@@ -85,7 +86,7 @@ theorem putItem_frame (s : DState) (x : String) (i : IState) :
 theorem liftItem_char (s : DState) (x : String) (a : IAct) (s' : DState) (ge : List GEff)
     (h : liftItem s x a = some (s', ge)) :
     ∃ i' e, istep (getItem s x) a = some (i', e) ∧ s'.items = (putItem s x i').items ∧
-      s'.sendQ = s.sendQ ++ ienqs e ∧ s'.written = s.written ∧ s'.wpc = s.wpc ∧ genqs ge = ienqs e := by
+      s'.sendQ = s.sendQ ++ (ienqs e).map some ∧ s'.written = s.written ∧ s'.wpc = s.wpc ∧ genqs ge = ienqs e := by
   rw [liftItem_eq] at h
   cases hi : istep (getItem s x) a with
   | none => rw [hi] at h; cases h
@@ -99,12 +100,17 @@ theorem liftItem_char (s : DState) (x : String) (a : IAct) (s' : DState) (ge : L
     simp only [p1, p2, p3] at h2 h3 h4
     exact ⟨i', e, rfl, h1, h2, h3, h4, by simpa [genqs] using h5⟩
 
+theorem filterMap_id_map_some (l : List String) : (l.map some).filterMap id = l := by
+  induction l with
+  | nil => rfl
+  | cons a l ih => simp [ih]
+
 theorem liftItem_gpending (s s₁ : DState) (y : String) (a : IAct) (s' : DState) (e : List GEff)
     (hs : gpending s₁ = gpending s) (h : liftItem s₁ y a = some (s', e)) :
     gpending s' = gpending s ++ genqs e := by
   obtain ⟨i', e', _, _, h2, h3, h4, h5⟩ := liftItem_char _ _ _ _ _ h
   rw [← hs, h5]
-  simp only [gpending, gholding, h2, h3, h4, List.append_assoc]
+  simp only [gpending, gholding, h2, h3, h4, List.append_assoc, List.filterMap_append, filterMap_id_map_some]
 
 theorem markFal_gpending (s : DState) (tid item : String) (kind : LKind) :
     gpending (markFal s tid item kind) = gpending s := by
@@ -127,26 +133,77 @@ theorem map_liftItem_gpending (s s₁ : DState) (y : String) (a : IAct)
     rw [h2.1, h2.2]
     exact liftItem_gpending s s₁ y a s' e0 hs hl
 
-/-- **send queue is FIFO, lossless, duplicate-free.** A step appends exactly the lines it enqueues, in order. -/
-theorem gstep_fifo {s s' : DState} {tid : String} {op : OpClass} {x : String} {effs : List GEff}
-    (h : gstep s tid op x = some (s', effs)) : gpending s' = gpending s ++ genqs effs := by
+/-- a reported I/O failure enqueues nothing. -/
+theorem genqs_gioEffects (s : DState) : genqs (gioEffects s) = [] := by
+  unfold gioEffects
+  cases s.ioHandler with
+  | none => rfl
+  | some r => cases r <;> rfl
+
+/-- a reported I/O failure carries the handler notification and the exit, nothing else. -/
+theorem mem_gioEffects {s : DState} {e : GEff} (h : e ∈ gioEffects s) : e = .ioHandler ∨ e = .exit := by
+  unfold gioEffects at h
+  cases hh : s.ioHandler with
+  | none => rw [hh] at h; simp at h; exact .inr h
+  | some r => rw [hh] at h; cases r <;> simp at h <;> grind
+
+/-- a step appends exactly the lines it enqueues, in order, to written ++ held ++ queued — unless it is the failing write,
+    which loses exactly the message the writer holds (and enqueues nothing). -/
+theorem gstep_fifo_cases {s s' : DState} {tid : String} {op : OpClass} {x : String} {effs : List GEff}
+    (h : gstep s tid op x = some (s', effs)) :
+    gpending s' = gpending s ++ genqs effs ∨
+    (tid = "W" ∧ op = .sendFail ∧ genqs effs = [] ∧ ∃ m, s.wpc = .send m ∧ s'.wpc = .failed ∧
+      s'.written = s.written ∧ s'.sendQ = s.sendQ) := by
+  have hx := gstep_not_exited h
   unfold gstep at h
+  rw [if_neg (by simp [hx])] at h
   repeat' split at h
   all_goals try simp only at h
   all_goals repeat' split at h
   all_goals first
     | contradiction
-    | (refine liftItem_gpending s _ _ _ _ _ ?_ h; first | rfl | exact markFal_gpending _ _ _ _)
-    | (refine map_liftItem_gpending s _ _ _ _ _ _ ?_ ?_ h
+    | (refine .inl (liftItem_gpending s _ _ _ _ _ ?_ h); first | rfl | exact markFal_gpending _ _ _ _)
+    | (refine .inl (map_liftItem_gpending s _ _ _ _ _ _ ?_ ?_ h)
        · rfl
        · intro p; exact ⟨rfl, rfl⟩)
     | (simp only [Option.some.injEq, Prod.mk.injEq] at h; obtain ⟨rfl, rfl⟩ := h
        have hl := (by assumption : liftItem _ _ _ = some _)
        have := liftItem_gpending s s _ _ _ _ rfl hl
-       exact this)
+       exact .inl this)
     | (simp only [Option.some.injEq, Prod.mk.injEq] at h; obtain ⟨rfl, rfl⟩ := h
-       simp [gpending, gholding, genqs, *]; done)
+       exact .inr ⟨by assumption, rfl, genqs_gioEffects _, _, by assumption, rfl, rfl, rfl⟩)
+    | (simp only [Option.some.injEq, Prod.mk.injEq] at h; obtain ⟨rfl, rfl⟩ := h
+       left; rw [genqs_gioEffects]; simp [gpending, gholding, gioReport]; done)
+    | (simp only [Option.some.injEq, Prod.mk.injEq] at h; obtain ⟨rfl, rfl⟩ := h
+       left; simp [gpending, gholding, genqs, *]; done)
 
+/-- **send queue is FIFO, lossless, duplicate-free.** A step — other than a failing write, see `gstep_fifo_sendFail` —
+    appends exactly the lines it enqueues, in order, to written ++ held ++ queued; the writer moves lines along without
+    reordering. -/
+theorem gstep_fifo {s s' : DState} {tid : String} {op : OpClass} {x : String} {effs : List GEff}
+    (h : gstep s tid op x = some (s', effs)) (hop : op ≠ .sendFail) : gpending s' = gpending s ++ genqs effs := by
+  rcases gstep_fifo_cases h with h | ⟨-, h, -⟩
+  · exact h
+  · exact absurd h hop
+
+/-- **a failing write loses exactly the message in the writer's hand**, nothing else: what was written and what is queued
+    stay as they are (and nothing is enqueued). -/
+theorem gstep_fifo_sendFail {s s' : DState} {tid : String} {x : String} {effs : List GEff}
+    (h : gstep s tid .sendFail x = some (s', effs)) :
+    ∃ m, s.wpc = .send m ∧ gpending s = s.written ++ m :: s.sendQ.filterMap id ∧
+      gpending s' = s.written ++ s.sendQ.filterMap id ∧ genqs effs = [] := by
+  have hx := gstep_not_exited h
+  unfold gstep at h
+  rw [if_neg (by simp [hx])] at h
+  repeat' split at h
+  all_goals try simp only at h
+  all_goals repeat' split at h
+  all_goals first
+    | contradiction
+    | (simp only [Option.some.injEq, Prod.mk.injEq] at h
+       obtain ⟨rfl, rfl⟩ := h
+       exact ⟨_, by assumption, by simp [gpending, gholding, *], by simp [gpending, gholding, gioReport],
+         genqs_gioEffects _⟩)
 
 theorem liftItem_item_out (s s₁ : DState) (x : String) (a : IAct) (s' : DState) (e : List GEff)
     (hs : s₁.items = s.items) (h : liftItem s₁ x a = some (s', e)) (y : String) :
@@ -187,7 +244,9 @@ theorem map_liftItem_item_out (s s₁ : DState) (x : String) (a : IAct)
 theorem gstep_item_out {s s' : DState} {tid : String} {op : OpClass} {x : String} {effs : List GEff}
     (h : gstep s tid op x = some (s', effs)) (y : String) :
     (getItem s' y).out = (getItem s y).out ∨ (getItem s' y).out = (getItem s y).out ++ genqs effs := by
+  have hx := gstep_not_exited h
   unfold gstep at h
+  rw [if_neg (by simp [hx])] at h
   repeat' split at h
   all_goals try simp only at h
   all_goals repeat' split at h
@@ -202,18 +261,101 @@ theorem gstep_item_out {s s' : DState} {tid : String} {op : OpClass} {x : String
        · rfl
        · intro p; exact ⟨rfl, rfl⟩)
 
-/-- **written ++ held ++ queued is exactly everything enqueued so far, in enqueue order.** -/
-theorem greach_pending {n : Nat} {u p : Option String} {s : DState} {log : List String}
-    (h : GReachL n u p s log) : gpending s = log := by
-  induction h with
-  | init => rfl
-  | step _ hg _ ih => rw [gstep_fifo hg, ih]
+/-- the writer's variables are the writer's: a step of another thread leaves `written` and `wpc` alone; and a writer that
+    has ended (stop pill taken, or dead on a failed write) takes no further step — **its state cannot be reset**. -/
+theorem gstep_wframe {s s' : DState} {tid : String} {op : OpClass} {x : String} {effs : List GEff}
+    (h : gstep s tid op x = some (s', effs)) :
+    (s'.wpc = s.wpc ∧ s'.written = s.written) ∨ (tid = "W" ∧ s.wpc ≠ .failed ∧ s.wpc ≠ .stopped) := by
+  have hx := gstep_not_exited h
+  unfold gstep at h
+  rw [if_neg (by simp [hx])] at h
+  repeat' split at h
+  all_goals try simp only at h
+  all_goals repeat' split at h
+  all_goals first
+    | contradiction
+    | (have hc := liftItem_char _ _ _ _ _ h
+       obtain ⟨_, _, _, _, _, h3, h4, _⟩ := hc
+       first
+         | exact .inl ⟨h4, h3⟩
+         | (left; rw [h4, h3]; unfold markFal; split <;> (try split) <;> exact ⟨rfl, rfl⟩))
+    | (simp only [Option.some.injEq, Prod.mk.injEq] at h; obtain ⟨rfl, rfl⟩ := h
+       first
+         | exact .inl ⟨rfl, rfl⟩
+         | (have hl := (by assumption : liftItem _ _ _ = some _)
+            obtain ⟨_, _, _, _, _, h3, h4, _⟩ := liftItem_char _ _ _ _ _ hl
+            exact .inl ⟨h4, h3⟩)
+         | (right; refine ⟨by assumption, ?_, ?_⟩ <;> (intro hh; simp_all; done)))
+    | (cases hl : liftItem s _ _ with
+       | none => rw [hl] at h; cases h
+       | some r =>
+         obtain ⟨s1, e1⟩ := r
+         rw [hl] at h
+         simp only [Option.map, Option.some.injEq, Prod.mk.injEq] at h
+         obtain ⟨rfl, rfl⟩ := h
+         obtain ⟨_, _, _, _, _, h3, h4, _⟩ := liftItem_char _ _ _ _ _ hl
+         exact .inl ⟨h4, h3⟩)
 
-/-- **what is on the wire is a prefix of what was enqueued.** -/
+/-- **the send queue neither duplicates nor reorders, and loses at most the one message a failed write had in hand**: if
+    the log of everything enqueued so far is written ++ lost ++ held ++ queued, where `lost` is empty unless a write has
+    failed (`wpc = .failed`) and then has at most one element, then so it is after a step. -/
+theorem gstep_pending_lost {s s' : DState} {tid : String} {op : OpClass} {x : String} {effs : List GEff} {log : List String}
+    (hs : gstep s tid op x = some (s', effs))
+    (ih : ∃ lost : List String, lost.length ≤ 1 ∧ (s.wpc ≠ .failed → lost = []) ∧
+      log = s.written ++ lost ++ gholding s ++ s.sendQ.filterMap id) :
+    ∃ lost : List String, lost.length ≤ 1 ∧ (s'.wpc ≠ .failed → lost = []) ∧
+      log ++ genqs effs = s'.written ++ lost ++ gholding s' ++ s'.sendQ.filterMap id := by
+  obtain ⟨lost, hl, hne, hlog⟩ := ih
+  rcases gstep_fifo_cases hs with hp | ⟨hW, hop, he, m, hm1, hm2, hwr, hq⟩
+  · by_cases hw4 : s.wpc = .failed
+    · -- the writer is dead: the other threads only append to the queue
+      rcases gstep_wframe hs with ⟨hw, hwr⟩ | ⟨-, h, -⟩
+      · have hw' : s'.wpc = .failed := by rw [hw]; exact hw4
+        refine ⟨lost, hl, fun h => absurd hw' h, ?_⟩
+        have hq : s'.sendQ.filterMap id = s.sendQ.filterMap id ++ genqs effs := by
+          simp only [gpending, gholding, hw', hw4, hwr, List.append_nil, List.append_assoc] at hp
+          exact List.append_cancel_left hp
+        rw [hlog, hwr, hq]
+        simp [gholding, hw', hw4]
+      · exact absurd hw4 h
+    · have := hne hw4
+      subst this
+      refine ⟨[], by simp, fun _ => rfl, ?_⟩
+      have : gpending s = log := by rw [hlog]; simp [gpending]
+      rw [← this, ← hp]
+      simp [gpending]
+  · -- the failing write
+    have hw4 : s.wpc ≠ .failed := by rw [hm1]; simp
+    have := hne hw4
+    subst this
+    refine ⟨[m], by simp, fun h => absurd hm2 h, ?_⟩
+    rw [hlog, he, hwr, hq]
+    simp [gholding, hm1, hm2]
+
+/-- **the send queue neither duplicates nor reorders, and loses at most the one message a failed write had in hand**: the
+    log of everything enqueued so far is written ++ lost ++ held ++ queued, where `lost` is empty unless a write has failed
+    (`wpc = .failed`), and then has at most one element. -/
+theorem greach_pending_lost {n : Nat} {u p : Option String} {s : DState} {log : List String}
+    (h : GReachL n u p s log) :
+    ∃ lost : List String, lost.length ≤ 1 ∧ (s.wpc ≠ .failed → lost = []) ∧
+      log = s.written ++ lost ++ gholding s ++ s.sendQ.filterMap id := by
+  induction h with
+  | init => exact ⟨[], by simp, fun _ => rfl, rfl⟩
+  | step _ hg _ ih => exact gstep_pending_lost hg ih
+
+/-- **written ++ held ++ queued is exactly everything enqueued so far, in enqueue order** as long as no write has failed.
+    (After a failed write exactly the message the writer held is missing: `gstep_fifo_sendFail`, `greach_pending_lost`.) -/
+theorem greach_pending {n : Nat} {u p : Option String} {s : DState} {log : List String}
+    (h : GReachL n u p s log) (hw : s.wpc ≠ .failed) : gpending s = log := by
+  obtain ⟨lost, -, hne, hlog⟩ := greach_pending_lost h
+  rw [hlog, hne hw]
+  simp [gpending]
+
+/-- **what is on the wire is a prefix of what was enqueued** (failed write or not). -/
 theorem greach_written_prefix {n : Nat} {u p : Option String} {s : DState} {log : List String}
     (h : GReachL n u p s log) : s.written <+: log := by
-  rw [← greach_pending h]
-  exact ⟨gholding s ++ s.sendQ, by simp [gpending]⟩
+  obtain ⟨lost, -, -, hlog⟩ := greach_pending_lost h
+  exact ⟨lost ++ gholding s ++ s.sendQ.filterMap id, by rw [hlog]; simp⟩
 
 /-- **every item's replies and notifications go to the wire in the item's own order**: the per-item outbound
     sequence is embedded, in order, in the global enqueue log. -/
@@ -289,7 +431,9 @@ theorem GPre.step {u p : Option String} {s s' : DState} {tid : String} {op : OpC
     (hf : ¬ ∃ msg, op = .failurePut msg) :
     (GPre u p s' ∧ genqs effs = []) ∨ genqs effs = ["1|" ++ writeCredentials u p] := by
   obtain ⟨hmpc, huser, hpw, hrst, htasks, hpend, hitems⟩ := h
+  have hx := gstep_not_exited hg
   unfold gstep at hg
+  rw [if_neg (by simp [hx])] at hg
   simp only [htasks, List.getElem?_nil] at hg
   repeat' split at hg
   all_goals try simp only at hg
@@ -302,6 +446,8 @@ theorem GPre.step {u p : Option String} {s s' : DState} {tid : String} {op : OpC
     | exact Or.inl (GPre.lsnRead ⟨hmpc, huser, hpw, hrst, htasks, hpend, hitems⟩ _ _ _ _ _ hg)
     | (simp only [Option.some.injEq, Prod.mk.injEq] at hg; obtain ⟨rfl, rfl⟩ := hg
        exact Or.inl ⟨⟨by simp only; omega, huser, hpw, hrst, by first | exact htasks | rfl, hpend, hitems⟩, rfl⟩)
+    | (simp only [Option.some.injEq, Prod.mk.injEq] at hg; obtain ⟨rfl, rfl⟩ := hg
+       exact Or.inl ⟨⟨hmpc, huser, hpw, hrst, by first | exact htasks | rfl, hpend, hitems⟩, genqs_gioEffects _⟩)
     | (simp only [Option.some.injEq, Prod.mk.injEq] at hg; obtain ⟨rfl, rfl⟩ := hg
        right; rw [huser, hpw]; rfl)
     | (exfalso; simp [htasks, hpend] at *; done)
